@@ -9,6 +9,7 @@ package main
 
 import (
 	"fmt"
+	"go/constant"
 	"go/token"
 	"go/types"
 
@@ -352,7 +353,7 @@ func (a *c05) properNext(val ssa.Value, e ssa.Value) (proper, recognised bool, w
 	if !ok || !call.Call.IsInvoke() || !callIs(call, a.pkg, "Schedule", "Next") {
 		return false, false, "value is not the result of Schedule.Next"
 	}
-	if X, ok := c05LoadOf(call.Call.Value, a.fSchedule); !ok || X != e {
+	if X, ok := c05LoadOf(call.Call.Value, a.fSchedule); !ok || !a.sameEntry(X, e) {
 		return false, true, "Schedule.Next is invoked on another entry's schedule"
 	}
 	if len(call.Call.Args) != 1 || !a.clockDerived(call.Call.Args[0]) {
@@ -379,6 +380,12 @@ func (a *c05) analyze(fn *ssa.Function, e ssa.Value, entryFacts uint64) uint64 {
 	_, isParam := e.(*ssa.Parameter)
 	if !isParam {
 		defInstr, _ = e.(ssa.Instruction)
+		// an element c.entries[i] written out at every use: the iteration is that of i
+		if idx := a.entryIdx(e); idx != nil {
+			if ii, ok := idx.(ssa.Instruction); ok {
+				defInstr = ii
+			}
+		}
 		entryFacts = 0
 	}
 	storesNext := a.mayStore(a.fNext)
@@ -414,7 +421,7 @@ func (a *c05) analyze(fn *ssa.Function, e ssa.Value, entryFacts uint64) uint64 {
 			break
 		}
 		X, ok := c05LoadOf(v, a.fNext)
-		if !ok || X != e {
+		if !ok || !a.sameEntry(X, e) {
 			return false
 		}
 		st, reach := orig.Before(v.(ssa.Instruction))
@@ -435,9 +442,26 @@ func (a *c05) analyze(fn *ssa.Function, e ssa.Value, entryFacts uint64) uint64 {
 			if !ok {
 				return st
 			}
-			f, unk := a.edgeFacts(ifi.Cond, from.Succs[0] == to, isOrig)
-			if unk {
-				a.unknownCond[fn] = true
+			var f uint64
+			for _, at := range c05ExpandCond(ifi.Cond, from.Succs[0] == to, 0) {
+				bits, unk := a.edgeFacts(at.v, at.tv, isOrig)
+				if unk {
+					a.unknownCond[fn] = true
+				}
+				f |= bits
+				// a same-package predicate on the entry (e.g. e.due(now)): the facts its
+				// result implies, established inside it on every matching return
+				if call, ok := at.v.(*ssa.Call); ok && !call.Call.IsInvoke() {
+					if h := staticCallee(call); h != nil && a.p.funcSet[h] && h != fn && len(h.Blocks) > 0 {
+						for k, arg := range call.Call.Args {
+							if k < len(h.Params) && a.sameEntry(arg, e) {
+								if o, reach := orig.Before(call); reach && o&c05mOrig != 0 {
+									f |= a.predicateFacts(h, h.Params[k], at.tv, 0)
+								}
+							}
+						}
+					}
+				}
 			}
 			return st | f
 		}}
@@ -450,7 +474,7 @@ func (a *c05) analyze(fn *ssa.Function, e ssa.Value, entryFacts uint64) uint64 {
 
 	evAt := map[ssa.Instruction]c05Event{}
 	for _, ev := range a.events(fn) {
-		if ev.unresolved || ev.entry != e {
+		if ev.unresolved || !a.sameEntry(ev.entry, e) {
 			continue
 		}
 		evAt[ev.instr] = ev
@@ -466,14 +490,14 @@ func (a *c05) analyze(fn *ssa.Function, e ssa.Value, entryFacts uint64) uint64 {
 			}
 			switch x := in.(type) {
 			case *ssa.Store:
-				if X, ok := c05FieldAddr(x.Addr, a.fPrev); ok && X == e {
+				if X, ok := c05FieldAddr(x.Addr, a.fPrev); ok && a.sameEntry(X, e) {
 					if isOrig(x.Val) {
 						return setBit(st, c05sPrev)
 					}
 					badPrev = "the value stored to Entry.Prev at " + a.pos(in) + " is not the activation instant that was compared with the clock (Entry.Next as it was before being recomputed)"
 					return clrBit(st, c05sPrev)
 				}
-				if X, ok := c05FieldAddr(x.Addr, a.fNext); ok && X == e {
+				if X, ok := c05FieldAddr(x.Addr, a.fNext); ok && a.sameEntry(X, e) {
 					proper, rec, why := a.properNext(x.Val, e)
 					if proper {
 						return setBit(st, c05sNext)
@@ -502,7 +526,7 @@ func (a *c05) analyze(fn *ssa.Function, e ssa.Value, entryFacts uint64) uint64 {
 					return st
 				}
 				for k, arg := range call.Call.Args {
-					if arg != e || k >= len(g.Params) {
+					if !a.sameEntry(arg, e) || k >= len(g.Params) {
 						continue
 					}
 					sub := a.analyze(g, g.Params[k], factsAt(in))
@@ -627,6 +651,11 @@ func (a *c05) checkActivation() {
 			if v == nil || cands[v] {
 				return
 			}
+			for _, o := range order {
+				if a.sameEntry(o, v) {
+					return
+				}
+			}
 			if _, isP := v.(*ssa.Parameter); isP {
 				return
 			}
@@ -663,4 +692,122 @@ func (a *c05) checkActivation() {
 		}
 	}
 	a.r.Stats["c05_start_events"] = nEvents
+}
+
+// entryIdx: if v is an element of Cron.entries read in place (*(&c.entries[i])),
+// the index value i; nil otherwise.
+func (a *c05) entryIdx(v ssa.Value) ssa.Value {
+	ld, ok := v.(*ssa.UnOp)
+	if !ok || ld.Op != token.MUL {
+		return nil
+	}
+	ia, ok := ld.X.(*ssa.IndexAddr)
+	if !ok {
+		return nil
+	}
+	if a.fEntries.Field == "" {
+		return nil
+	}
+	if _, ok := c05LoadOf(ia.X, a.fEntries); !ok {
+		return nil
+	}
+	return ia.Index
+}
+
+// sameEntry: x and e denote the same entry within one iteration: the same SSA
+// value, or the same element c.entries[i] (go/ssa re-loads it at every use).
+func (a *c05) sameEntry(x, e ssa.Value) bool {
+	if x == e {
+		return true
+	}
+	if x == nil || e == nil {
+		return false
+	}
+	ix, ie := a.entryIdx(x), a.entryIdx(e)
+	if ix == nil || ie == nil {
+		return false
+	}
+	if ix == ie {
+		return true
+	}
+	cx, ok1 := ix.(*ssa.Const)
+	ce, ok2 := ie.(*ssa.Const)
+	return ok1 && ok2 && c05SameValue(cx, ce)
+}
+
+// predicateFacts: facts about origNext(e) (e = parameter par of the boolean
+// helper h) that hold whenever h returns tv: the intersection, over the
+// returns that can yield tv, of the facts established on the way plus those
+// implied by the returned expression itself.
+func (a *c05) predicateFacts(h *ssa.Function, par *ssa.Parameter, tv bool, depth int) uint64 {
+	if depth > 2 || h.Signature.Results().Len() != 1 || !c05IsBool(h.Signature.Results().At(0).Type()) {
+		return 0
+	}
+	storesNext := a.mayStore(a.fNext)
+	orig := &FlagFlow{Fn: h, Must: true, Entry: c05mOrig,
+		Transfer: func(in ssa.Instruction, st uint64) uint64 {
+			switch x := in.(type) {
+			case *ssa.Store:
+				if _, ok := c05FieldAddr(x.Addr, a.fNext); ok {
+					return 0
+				}
+			case *ssa.Call:
+				if cal := staticCallee(x); cal != nil && storesNext[cal] {
+					return 0
+				}
+			}
+			return st
+		}}
+	orig.Run()
+	isOrig := func(v ssa.Value) bool {
+		X, ok := c05LoadOf(v, a.fNext)
+		if !ok || X != ssa.Value(par) {
+			return false
+		}
+		st, reach := orig.Before(v.(ssa.Instruction))
+		return reach && st&c05mOrig != 0
+	}
+	atomFacts := func(cond ssa.Value, br bool) uint64 {
+		var f uint64
+		for _, at := range c05ExpandCond(cond, br, 0) {
+			bits, _ := a.edgeFacts(at.v, at.tv, isOrig)
+			f |= bits
+		}
+		return f
+	}
+	facts := &FlagFlow{Fn: h, Must: true,
+		Transfer: func(in ssa.Instruction, st uint64) uint64 { return st },
+		EdgeTransfer: func(from, to *ssa.BasicBlock, st uint64) uint64 {
+			if len(from.Instrs) == 0 || len(from.Succs) != 2 || from.Succs[0] == from.Succs[1] {
+				return st
+			}
+			ifi, ok := from.Instrs[len(from.Instrs)-1].(*ssa.If)
+			if !ok {
+				return st
+			}
+			return st | atomFacts(ifi.Cond, from.Succs[0] == to)
+		}}
+	facts.Run()
+	all := uint64(c05mLE | c05mNZ)
+	n := 0
+	facts.AtReturns(func(ret *ssa.Return, st uint64) {
+		if len(ret.Results) != 1 {
+			return
+		}
+		v := c05ResolveLocal(ret.Results[0])
+		if k, ok := v.(*ssa.Const); ok && k.Value != nil && k.Value.Kind() == constant.Bool {
+			if constant.BoolVal(k.Value) != tv {
+				return // this return cannot yield tv
+			}
+			n++
+			all &= st
+			return
+		}
+		n++
+		all &= st | atomFacts(v, tv)
+	})
+	if n == 0 {
+		return 0
+	}
+	return all & (c05mLE | c05mNZ)
 }
